@@ -300,6 +300,8 @@ func (x *UnsafeAnyBSlice[E]) Unmarshal(data []byte) error {
 	if x.e == nil {
 		x.e = []E{}
 	}
+	// decode into the elements only: json.Unmarshal would merge into whatever the spare capacity holds
+	x.e = x.e[:len(x.e):len(x.e)]
 	return json.Unmarshal(data, &x.e)
 }
 
